@@ -93,7 +93,7 @@ def check_export_bound(ctx, F):
     return ctx.ok('R5', role, ch.defpath, 'chunk count = ceil((BITS - leading_zeros(state)) / Word::BITS) <= State::BITS / Word::BITS (std contract of StepBy over Range)', key=key)
 
 
-_WRAPPERS = ('::unwrap', '::expect', '::ok_or_else', '::ok_or', 'BitArray::into_nonzero', 'BitArray::into_nonzero_unchecked', '::get', '::unwrap_unchecked', '::new_unchecked')
+_WRAPPERS = ('::unwrap', '::expect', '::ok_or_else', '::ok_or', 'BitArray::into_nonzero', 'BitArray::into_nonzero_unchecked', '::get', '::unwrap_unchecked', '::new_unchecked', 'NonZero::<T>::new', '::unwrap_or_else')
 
 
 def _width_kind(t, RANGE):
